@@ -731,6 +731,40 @@ func main() {
 	}
 	fmt.Fprintf(&out, "/-- every slice / index / unchecked type-assertion expression of tick/eval.go and tick/stack.go. -/\ndef evalSliceSites : List (String × String) := [%s]\n\n", strings.Join(evalSites, ",\n  "))
 
+	// tick/ast/json.go: which pointer/interface-returning accessors answer (nil, nil) for a JSON null
+	var nullAcc []string
+	accKnown := true
+	for _, name := range []string{"Regex", "Node", "IDNode", "RefNode"} {
+		fd := findFunc(jsonGo, "JSONNode", name)
+		if fd == nil {
+			accKnown = false
+			continue
+		}
+		ast.Inspect(fd.Body, func(x ast.Node) bool {
+			ifs, ok := x.(*ast.IfStmt)
+			if !ok {
+				return true
+			}
+			b, ok := ifs.Cond.(*ast.BinaryExpr)
+			if !ok || b.Op != token.EQL || src(b.Y) != "nil" {
+				return true
+			}
+			if _, isErr := b.X.(*ast.Ident); isErr && src(b.X) == "err" {
+				return true
+			}
+			for _, st := range ifs.Body.List {
+				if rs, ok := st.(*ast.ReturnStmt); ok && len(rs.Results) == 2 && src(rs.Results[1]) == "nil" {
+					nullAcc = append(nullAcc, leanStr(name))
+				}
+			}
+			return true
+		})
+	}
+	if !accKnown {
+		nullAcc = append(nullAcc, leanStr("?unknown accessor set"))
+	}
+	fmt.Fprintf(&out, "/-- JSONNode accessors returning a pointer / interface that answer `(nil, nil)` when the field is null\n(`if x == nil { return nil, nil }`). -/\ndef jsonNullAccepting : List String := [%s]\n\n", strings.Join(nullAcc, ", "))
+
 	out.WriteString("end Kap.C05.Gen\n")
 	path := filepath.Join(lean, "Kap", "Gen", "C05.lean")
 	os.MkdirAll(filepath.Dir(path), 0o755)
